@@ -132,6 +132,38 @@ def run(R):
                             lookups.append((s2, e2))
                         else:
                             ok, why = False, f'trie step comes from {s2.text()}'
+                elif s.kind == 'unpack' and s.extra == 1 and isinstance(s.expr, ast.Call) and isinstance(s.expr.func, ast.Attribute) and self_attr(s.expr.func.value):
+                    # `key, node = self.<trie>.longest_prefix(name)`: the step unpacked into (matched key, value)
+                    lookups.append((s, s.expr))
+                    # MPT.2 for this form: the node is used only behind a test that a prefix matched. The matched key may be the empty name
+                    # (a handler attached at `/`), which is falsy: its truthiness says nothing; `is None` tests of key / node do.
+                    tgt = s.node.ast.targets[0] if s.node.kind == 'stmt' and isinstance(s.node.ast, ast.Assign) else None
+                    names = [e_.id for e_ in tgt.elts if isinstance(e_, ast.Name)] if isinstance(tgt, ast.Tuple) else []
+                    if len(names) == 2:
+                        # judged where the step was unpacked: in this function, or in the enclosing one (then at the definition of this closure)
+                        dcx = s.ctx
+                        use = n
+                        if dcx is not cx:
+                            c_ = cx
+                            while c_ is not None and c_.parent is not dcx:
+                                c_ = c_.parent
+                            defs_ = [m_ for m_ in dcx.cfg.nodes if m_.kind == 'def' and c_ is not None and m_.ast is c_.f.node]
+                            R.need(defs_, f'{qual}: cannot place the use of the unpacked trie step')
+                            use = defs_[0]
+                        inst2 = f'{dcx.qual} :: {names[0]}, {names[1]} = {norm(s.expr)[:50]}'
+                        truthy_key = [t for (t, lab) in tests_on(dcx, names[0]) if not isinstance(t.ast, ast.Compare)]
+                        good = [(t, lab) for nm_ in names for (t, lab) in tests_on(dcx, nm_) if isinstance(t.ast, ast.Compare) or nm_ == names[1]]
+                        cx_, n_ = cx, n
+                        cx, n = dcx, use
+                        if truthy_key and not (good and n.id not in cx.cfg.reachable(removed_edges={(t.id, lab) for (t, lab) in good})):
+                            R.fail('C04.MPT.2', inst2, cx.qual, truthy_key[0].ast, f'a match is decided by the truthiness of the matched key `{names[0]}`: the empty '
+                                   'name is a legitimate key (a handler attached at `/`), so Interests whose longest matching prefix is `/` are dropped as unroutable',
+                                   site(cx, truthy_key[0].ast))
+                        elif not good or n.id in cx.cfg.reachable(removed_edges={(t.id, lab) for (t, lab) in good}):
+                            R.fail('C04.MPT.2', inst2, cx.qual, s.node.ast, 'trie step used without testing that a prefix matched', site(cx, s.node.ast))
+                        else:
+                            R.ok('C04.MPT.2', inst2, site(cx_, c))
+                        cx, n = cx_, n_
                 else:
                     ok, why = False, f'handler node comes from {s.text()}'
             if not lookups and ok:
